@@ -47,12 +47,13 @@ def build_cases(tier, seed):
     _VECS = {}
     for n in (3, 4):
         _VECS[n] = (vectors(n, (0, 1, 2, 3)) + vectors(n, (F(0), F(1, 2), F(1, 3), F(1)))
-                    + vectors(n, (0.0, 0.25, 0.5, 1.5)))
+                    + vectors(n, (0.0, 0.25, 0.5, 1.5))
+                    + [[1, 1e-4, 1e-8], [F(2), F(1, 10**6 + 3), F(1, 10**7)], [0.3, 0.2, 0.1], [0.7, 0.1]])
     _CASES = cs
     meta = {
         "family": famtxt + " x all non-increasing score vectors of length 1..n+1 over {0,1,2,3}, {0,1/2,1/3,1} (Fractions) and the dyadic "
-                  "floats {0,0.25,0.5,1.5}; first_place_votes / mentions / borda_scores; Plurality, SNTV, Borda x m x tiebreak (all RNG paths)",
-        "assumptions": ["float vector entries are read as their exact binary value; non-dyadic floats are not in the alphabet",
+                  "floats {0,0.25,0.5,1.5} plus the vectors (1,1e-4,1e-8), (2,1/(10^6+3),1/10^7), (.3,.2,.1), (.7,.1); first_place_votes / mentions / borda_scores; Plurality, SNTV, Borda x m x tiebreak (all RNG paths)",
+        "assumptions": ["float vector entries are read as their exact binary value",
                         "small scope: n<=3 (quick) / n<=4 (thorough) candidates, K<=2..3 ballot types"],
     }
     return list(range(len(cs))), meta
@@ -136,7 +137,8 @@ def run_case(i, tier):
         if any(gf[c] != float(exp[c]) for c in cs):
             out["viols"].append(_viol("to_float", name, i, f"{gf} != float of exact"))
     # elections
-    alt_vecs = [[3, 1, 1], [2, 2, 0], [F(1), F(1, 2), F(1, 3)], [1.5, 0.5, 0.25], [3, 2, 1, 1]]
+    alt_vecs = [[3, 1, 1], [2, 2, 0], [F(1), F(1, 2), F(1, 3)], [1.5, 0.5, 0.25], [3, 2, 1, 1],
+                [1, 1e-4, 1e-8], [F(2), F(1, 10**6 + 3), F(1, 10**7)], [0.3, 0.2, 0.1]]
     for rule, vec in [("Plurality", None), ("SNTV", None), ("Borda", None)] + [("Borda", v) for v in alt_vecs]:
         if vec is None:
             sc = refs.ref_fpv(case) if rule != "Borda" else refs.ref_borda(case)
